@@ -1,9 +1,9 @@
 package rules
 
 import (
-	"sort"
 	"go/token"
 	"go/types"
+	"sort"
 
 	"fv/internal/core"
 	"fv/internal/ssax"
